@@ -138,6 +138,83 @@ func (c *Checker) afterPure(line, op string, args []string, obs string) {
 		if obs != want {
 			c.Report("C18", line, "answered `"+obs+"`, expected `"+want+"` (activation epoch "+strconv.FormatUint(c.activation, 10)+")")
 		}
+	case "codemeta", "usermeta", "globalmeta":
+		// C20: two-byte forms decode flag by flag and re-encode to exactly the flag bits (canonical form); every other
+		// length decodes to the empty value, which encodes as two zero bytes — on every line, whatever was decoded or
+		// encoded before (the observation is compared with a spec written from the property, not with another run)
+		if len(args) != 1 {
+			return
+		}
+		b, ok := unhexTok(args[0])
+		if !ok {
+			return
+		}
+		bit := func(i int, m byte) bool { return len(b) == 2 && b[i]&m != 0 }
+		z := func(x bool) string {
+			if x {
+				return "1"
+			}
+			return "0"
+		}
+		enc := []byte{0, 0}
+		var want string
+		if op == "codemeta" {
+			up, pay, rd := bit(0, 1), bit(1, 2), bit(0, 4)
+			if up {
+				enc[0] |= 1
+			}
+			if rd {
+				enc[0] |= 4
+			}
+			if pay {
+				enc[1] |= 2
+			}
+			want = "ok " + z(up) + z(pay) + z(rd) + " " + hexTok(enc)
+		} else {
+			f := bit(0, 1)
+			if f {
+				enc[0] = 1
+			}
+			want = "ok " + z(f) + " " + hexTok(enc)
+		}
+		if obs != want {
+			c.Report("C20", line, "answered `"+obs+"`, the byte form says `"+want+"`")
+		}
+	case "addr":
+		// C20: address classification as documented (address.go's comments and constants, restated here byte by byte):
+		// a contract address is longer than 10 bytes and starts with 8 zero bytes (the 2 VM-type bytes that follow are
+		// free) — the all-zero address of such a length included; the system account is any address whose first 30 bytes
+		// are 0xff; a metachain identifier is a non-empty run of 0xff; a metachain contract is a contract address longer
+		// than 25 bytes whose bytes 10..24 are zero, asked with a metachain identifier; a key is open unless it starts with
+		// the protected prefix
+		if len(args) != 1 {
+			return
+		}
+		b, ok := unhexTok(args[0])
+		if !ok {
+			return
+		}
+		all := func(x []byte, v byte) bool {
+			for _, y := range x {
+				if y != v {
+					return false
+				}
+			}
+			return true
+		}
+		z := func(x bool) string {
+			if x {
+				return "1"
+			}
+			return "0"
+		}
+		sc := len(b) > 10 && all(b[:8], 0)
+		scmeta := len(b) > 25 && b[len(b)-1] == 0xff && sc && all(b[10:25], 0)
+		want := "ok sc=" + z(sc) + " empty=" + z(all(b, 0)) + " sys=" + z(len(b) >= 30 && all(b[:30], 0xff)) +
+			" metaid=" + z(len(b) > 0 && all(b, 0xff)) + " scmeta=" + z(scmeta) + " allowed=" + z(!strings.HasPrefix(string(b), "ELROND"))
+		if obs != want {
+			c.Report("C20", line, "answered `"+obs+"`, the documented classification is `"+want+"`")
+		}
 	case "registry":
 		want := "registry " + strings.Join(AllFunctions, ",")
 		if len(args) == 2 && args[1] == "second" {
